@@ -162,11 +162,41 @@ impl Oracle {
         if o.st == TransactionState::Suspended && (o.hp || o.ut != std::time::Duration::MAX) {
             self.fail(orc, "C19", k, format!("suspended but has_pdu_to_send={} until_timeout={:?}", o.hp, o.ut));
         }
+        // ---- C03: left alone (peer silent for good), the transaction must end within its limits
+        if t[0] == "IDLE" {
+            if let Some((it, ms)) = o.idle {
+                let k: usize = t[1].parse().unwrap();
+                let h = &self.cfg.handlers;
+                let lenient = [Condition::PositiveLimitReached, Condition::NakLimitReached, Condition::InactivityDetected]
+                    .iter()
+                    .any(|c| matches!(h.get(c), Some(FaultHandlerAction::Ignore) | Some(FaultHandlerAction::Suspend)));
+                let tmax = self.cfg.ti.max(self.cfg.ta).max(self.cfg.tn) as u64 * 1000;
+                let delay = match self.cfg.nak {
+                    NakProcedure::Immediate(d) | NakProcedure::Deferred(d) => d.as_millis() as u64,
+                };
+                let bound = (3 * self.cfg.maxc as u64 + 3) * tmax + delay;
+                if o.st == TransactionState::Active && o.res == "ok" {
+                    if it < k {
+                        self.fail(orc, "C03", k, format!("transaction stuck after {it} loop iterations: active, nothing to send and no timer running"));
+                    } else if !lenient {
+                        self.fail(orc, "C03", k, format!("transaction still active after {it} loop iterations without any incoming PDU"));
+                    }
+                }
+                if o.st == TransactionState::Terminated && !lenient && ms > bound {
+                    self.fail(orc, "C03", k, format!("transaction took {ms} ms of silence to end; bound from the configuration is {bound} ms"));
+                }
+            }
+        }
         // ---- C17: an inactivity fault needs max_count consecutive expirations without any PDU from the peer
         if !self.is_recv && t[0] == "ADV" {
             self.now_ms += t[1].parse::<u64>().unwrap(); // (the receiver side advances now_ms in step_recv)
         }
-        let now = if self.is_recv && t[0] == "ADV" { self.now_ms + t[1].parse::<u64>().unwrap() } else { self.now_ms };
+        let mut now = if self.is_recv && t[0] == "ADV" { self.now_ms + t[1].parse::<u64>().unwrap() } else { self.now_ms };
+        if let Some((_, ms)) = o.idle {
+            // time advanced inside the idle drive (faults inside it happened no later than its end)
+            now += ms;
+            self.now_ms += ms;
+        }
         if t[0] == "PDU" && self.prev_st != TransactionState::Suspended {
             self.last_activity_ms = now;
         }
@@ -810,6 +840,10 @@ pub fn gen_recv(seed: u64, tier: &str, w: &mut impl Write, stats: &mut Stats) {
             script.push("TIMEOUT".into());
             script.push("SEND".into());
         }
+        if r.chance(1, 2) {
+            script.push("IDLE 400".into());
+            stats.inc("idle_drive");
+        }
         let truth = if truthful { format!(" truth={}", hex(&p.file)) } else { String::new() };
         stats.inc(if truthful { "cases_truthful_inputs" } else { "cases_untruthful_inputs" });
         stats.add("ops", script.len() as u64);
@@ -902,6 +936,10 @@ pub fn gen_send(seed: u64, tier: &str, w: &mut impl Write, stats: &mut Stats) {
             script.push(format!("ADV {}", *r.pick(&[p.ta * 1000, p.ti * 1000, 1000, p.ta * 1000 + 1])));
             script.push("TIMEOUT".into());
             script.push("SEND".into());
+        }
+        if r.chance(1, 2) {
+            script.push("IDLE 400".into());
+            stats.inc("idle_drive");
         }
         stats.add("ops", script.len() as u64);
         writeln!(w, "CASE s{case} sub={sub} {}", p.hdr).unwrap();
